@@ -42,6 +42,7 @@ func c19Cases(timeout float64) []c19Case {
 	over := fmt.Sprintf("%.1f", timeout+4)
 	return []c19Case{
 		{Mode: "ok", script: "echo 42", wantOut: "42", mayOutput: true},
+		{Mode: "ok-with-stderr", script: "echo 'warning: retried' >&2; echo 42", wantOut: "42", mayOutput: true},
 		{Mode: "ok-multiline", script: "printf '\\n1\\n2\\n\\n'", wantOut: "1\n2", mayOutput: true},
 		{Mode: "exit1-with-output", script: "echo 17; echo oops >&2; exit 1", mustErr: true},
 		{Mode: "exit3-no-output", script: "exit 3", mustErr: true},
@@ -304,7 +305,7 @@ func init() {
 		for _, via := range []string{"CmdSensor", "CmdFan.GetRpm", "CmdFan.GetPwm", "CmdFan.SetPwm"} {
 			for _, c := range c19Cases(2) {
 				switch c.Mode {
-				case "not-executable", "missing-interpreter", "exit1-with-output", "grandchild-holds-stdout", "sleep-beyond-deadline-child", "non-numeric-output", "empty-output", "ok", "text-file-busy",
+				case "not-executable", "missing-interpreter", "exit1-with-output", "grandchild-holds-stdout", "sleep-beyond-deadline-child", "non-numeric-output", "empty-output", "ok", "ok-with-stderr", "text-file-busy",
 					"blank-output-space", "blank-output-tab", "blank-output-crlf", "blank-output-lines", "value-with-unit",
 					"missing", "symlink-loop", "parent-is-a-file", "name-too-long", "is-a-directory", "dangling-symlink":
 				default:
@@ -369,6 +370,9 @@ func init() {
 		if ctx.Batch == 0 && !ctx.Abort {
 			c19Storm(ctx, dir)
 		}
+		if ctx.Batch == 1%ctx.Of && !ctx.Abort {
+			c19SameHangingCommand(ctx, dir)
+		}
 	})
 }
 
@@ -427,4 +431,58 @@ func c19Storm(ctx *Ctx, dir string) {
 	wg.Wait()
 	ctx.Nontrivial("concurrent-never-used-paths|12x150")
 	ctx.Count("concurrent_first_use_calls", G*K)
+}
+
+// c19SameHangingCommand: one executable that stops answering, called by several users at once (cmd fans sharing a
+// script, a cmd sensor read by its monitor and a curve). Every one of the calls is bounded by its own timeout.
+func c19SameHangingCommand(ctx *Ctx, dir string) {
+	sdir := filepath.Join(dir, "samehang")
+	_ = os.MkdirAll(sdir, 0755)
+	script := filepath.Join(sdir, "hang.sh")
+	_ = os.WriteFile(script, []byte("#!/bin/sh\nexec sleep 30\n"), 0755)
+	for _, via := range []string{"SafeCmdExecution", "CmdFan.GetPwm"} {
+		timeout := 1 * time.Second
+		if via != "SafeCmdExecution" {
+			timeout = 2 * time.Second // fixed inside fan2go
+		}
+		const callers = 5
+		res := make([]c19Result, callers)
+		var wg sync.WaitGroup
+		for i := 0; i < callers; i++ {
+			wg.Add(1)
+			go func(i int) {
+				defer wg.Done()
+				res[i] = c19Call(via, script, timeout)
+			}(i)
+		}
+		wg.Wait()
+		worst := time.Duration(0)
+		for _, r := range res {
+			ctx.Eval(1)
+			if r.elapsed > worst {
+				worst = r.elapsed
+			}
+			if r.panicMsg != "" {
+				ctx.Violation("panic:same-hanging-command:via="+via, r.panicMsg, nil)
+				return
+			}
+			if r.err == nil {
+				ctx.Violation("failure-not-reported:same-hanging-command:via="+via, fmt.Sprintf("out=%q", trunc(r.out)), nil)
+				return
+			}
+		}
+		over := worst - timeout
+		ctx.Max("max_elapsed_over_timeout_ms", int64(over/time.Millisecond))
+		if over >= 2500*time.Millisecond {
+			var all []string
+			for _, r := range res {
+				all = append(all, fmt.Sprintf("%.1fs", r.elapsed.Seconds()))
+			}
+			ctx.Violation("blocked-past-timeout:same-hanging-command:via="+via, fmt.Sprintf("%d concurrent calls of one hanging executable with timeout %.0fs returned after %v", callers, timeout.Seconds(), all), nil)
+			return
+		} else if over > 1000*time.Millisecond {
+			ctx.Inconclusive(fmt.Sprintf("same-hanging-command via %s: slowest call took %.2fs (grey zone)", via, worst.Seconds()))
+		}
+		ctx.Nontrivial("same-hanging-command|" + via)
+	}
 }
